@@ -41,6 +41,24 @@ def opaque_value(x):
         return datetime.time(n % 24, n % 60)
     if kind == "Path":
         return pathlib.Path(ident.replace("!", "_") + ".wav")
+    if kind == "Geometry" and x.get("bounds") and None not in x["bounds"]:
+        # a real geometry with the model's bounds (and type, where that type is determined by its bounds)
+        from soundevent import data
+        t0, f0, t1, f1 = x["bounds"]
+        kind_ = x.get("type")
+        try:
+            if kind_ == "TimeStamp" and t0 == t1:
+                return data.TimeStamp(coordinates=t0)
+            if kind_ == "TimeInterval":
+                return data.TimeInterval(coordinates=[t0, t1])
+            if kind_ in (None, "BoundingBox"):
+                return data.BoundingBox(coordinates=[t0, f0, t1, f1])
+            if kind_ == "Point" and t0 == t1 and f0 == f1:
+                return data.Point(coordinates=[t0, f0])
+            if kind_ == "LineString" and (t0 < t1 or f0 < f1):
+                return data.LineString(coordinates=[[t0, f0], [t1, f1]])
+        except Exception:
+            pass
     return x
 
 
